@@ -229,14 +229,56 @@ def assignment_extremes_bounded_instance():
         if inp['alg'] == 'optimal' and K > 4:
             K = 4
             s = s[..., :4, :4]
+        # any memory layout of the score matrix: C order, transposed storage of the two class axes, Fortran order, a strided slice
+        lay = ['C', 'T', 'F', 'strided'][(inp['seed'] // 3) % 4]
+        if lay == 'T':
+            s = np.swapaxes(np.ascontiguousarray(np.swapaxes(s, -1, -2)), -1, -2)
+        elif lay == 'F':
+            s = np.asfortranarray(s)
+        elif lay == 'strided':
+            big = np.zeros(s.shape[:-1] + (2 * s.shape[-1],), dtype=s.dtype)
+            big[..., ::2] = s
+            s = big[..., ::2]
+        s0 = s.copy()
         m = pa._mapping_from_score_matrix(s, inp['alg'])
-        return {'m': np.asarray(m), 'K': K, 'F': F}
+        res = {'m': np.asarray(m), 'K': K, 'F': F, 'untouched': bool(np.array_equal(s, s0))}
+        # through the aligners: hard masks of every element type (bool, int8, float), stored bin-major and handed over as a
+        # transposed view, every metric; the aligned mask has the rows of the input in every bin
+        Fm, T = 5, int(rng.randint(K + 2, 40))
+        lab = rng.randint(0, K, size=(Fm, T))
+        store = np.stack([(lab == k) for k in range(K)], axis=1)                       # (F, K, T)
+        if inp['seed'] % 2:
+            store = store | (rng.rand(Fm, K, T) < 0.2)                                   # overlapping supports
+        mdt = [bool, np.int8, np.float64][(inp['seed'] // 2) % 3]
+        metric = ['multiply', 'cos', 'euclidean'][(inp['seed'] // 5) % 3]
+        mask = np.transpose(store.astype(mdt), (1, 0, 2))                               # (K, F, T) view
+        ref = np.ascontiguousarray(mask[rng.permutation(K)])
+        try:
+            if inp['seed'] % 4 < 2:
+                al = pa.GreedyPermutationAlignment(metric, inp['alg'])
+                res['aligned'] = (np.asarray(al(mask)), np.array(mask, copy=True))
+            else:
+                al = pa.OraclePermutationAlignment(metric, inp['alg'])
+                res['aligned'] = (np.asarray(al(mask, ref)), np.array(mask, copy=True))
+        except TypeError:
+            pass              # boolean masks and the euclidean metric: explicit rejection by NumPy (boolean subtract)
+        return res
 
     def ensures(sp, inp, out):
         m, K, F = out['m'], out['K'], out['F']
         yield 'shape', bool(m.shape == ((K,) if F is None else (K, F)))
         cols = m.reshape(K, -1)
         yield 'assignment-is-a-permutation-in-every-bin', bool(all(sorted(cols[:, f].tolist()) == list(range(K)) for f in range(cols.shape[1])))
+        yield 'score-matrix-untouched', out['untouched']
+        if 'aligned' in out:
+            got, src = out['aligned']
+            ok = got.shape == src.shape
+            if ok:
+                for f in range(src.shape[1]):
+                    a = sorted(map(tuple, np.asarray(got[:, f], dtype=float).tolist()))
+                    b = sorted(map(tuple, np.asarray(src[:, f], dtype=float).tolist()))
+                    ok &= a == b
+            yield 'aligned-mask-has-the-rows-of-the-input-in-every-bin', bool(ok)
 
     return Instance('C14', 'pb_bss.permutation_alignment:_mapping_from_score_matrix', 'bounded-extreme-magnitudes-and-element-types', make, call, ensures,
                     mode='bounded', bounded_n=120, frame=False)
